@@ -21,4 +21,5 @@ try:
 finally:
     subprocess.call(['git','-C','/repo','worktree','remove','--force',wt]); shutil.rmtree(wt,ignore_errors=True)
 PY
+rm -f /verif/replays/*@*
 done
